@@ -2345,6 +2345,315 @@ theorem runFromSetup_total (c : Cfg α) (s : St α) (a0 : EvalAns α) (eq : List
   exact runSteps_total c tf dtminS steps _ dtmaxS hr (by rw [hl]; exact hsh)
 
 
+/-! ### `reset()` rewinds: after a reset the past is forgotten
+
+Two binary models configured alike (same population-balance parameters, phase by phase) have, after `reset()`, the same future:
+`setup()` and every later run produce identical states for identical backend answers — whatever either model did before
+(earlier runs, re-meshed grids, stale tables and growth fields that `reset` leaves in place).  In particular a model that was
+reset behaves like a freshly constructed one (`reset_like_fresh`), which is what the time-temperature-precipitation calculator
+relies on when it resets one model for every temperature. -/
+
+/-- two population balance models configured alike (whatever they hold now) -/
+def GridCfgEq (g1 g2 : Grid.State α) : Prop :=
+  g1.origMin = g2.origMin ∧ g1.origMax = g2.origMax ∧ g1.origBins = g2.origBins ∧ g1.minBins = g2.minBins ∧
+  g1.maxBins = g2.maxBins ∧ g1.adaptive = g2.adaptive ∧ g1.recording = g2.recording ∧ g1.savedOk = g2.savedOk ∧
+  g1.savedBins = g2.savedBins ∧ g1.savedPsd = g2.savedPsd ∧ g1.savedTime = g2.savedTime
+
+theorem reset_forgets_grid (g1 g2 : Grid.State α) (h : GridCfgEq g1 g2) :
+    ({ Grid.reset g1 true with recBins := [], recPsd := [], recTime := [] } : Grid.State α) =
+      { Grid.reset g2 true with recBins := [], recPsd := [], recTime := [] } := by
+  obtain ⟨h1, h2, h3, h4, h5, h6, h7, h8, h9, h10, h11⟩ := h
+  simp only [Grid.reset, if_true, h1, h2, h3, h4, h5, h6, h7, h8, h9, h10, h11]
+
+/-- a `DtRules.Phase` without its growth field -/
+def noG (ph : DtRules.Phase α) : DtRules.Phase α := { ph with growth := [] }
+
+theorem occupied_noG (pred : DtRules.Site → Bool) (w : DtRules.Phase α → α) (hw : ∀ ph, w (noG ph) = w ph)
+    (l : List (DtRules.Phase α)) : DtRules.occupied pred w (l.map noG) = DtRules.occupied pred w l := by
+  unfold DtRules.occupied
+  congr 1
+  induction l with
+  | nil => rfl
+  | cons x xs ih =>
+    simp only [List.map_cons, List.filter_cons]
+    have : (noG x).site = x.site := rfl
+    rw [this]
+    split
+    · simp only [List.map_cons, hw, ih]
+    · exact ih
+
+theorem parentSites_noG (NA : α) (l : List (DtRules.Phase α)) (parents : List Nat) :
+    DtRules.parentSites NA (l.map noG) parents = DtRules.parentSites NA l parents := by
+  unfold DtRules.parentSites
+  congr 1
+  apply List.map_congr_left
+  intro q _
+  have hf : List.find? (fun ph : DtRules.Phase α => ph.id == q) (l.map noG) =
+      (List.find? (fun ph : DtRules.Phase α => ph.id == q) l).map noG := by
+    rw [List.find?_map]; rfl
+  rw [hf]
+  cases List.find? (fun ph : DtRules.Phase α => ph.id == q) l <;> rfl
+
+/-- the available nucleation sites do not depend on the growth fields -/
+theorem calcSites_noG (sc : DtRules.SiteCfg α) (l : List (DtRules.Phase α)) (p : DtRules.Phase α) :
+    DtRules.calcSites sc (l.map noG) (noG p) = DtRules.calcSites sc l p := by
+  unfold DtRules.calcSites
+  have hs : (noG p).site = p.site := rfl
+  have hp : (noG p).parents = p.parents := rfl
+  simp only [hs, hp, parentSites_noG]
+  rw [occupied_noG _ _ (fun _ => rfl), occupied_noG _ _ (fun _ => rfl), occupied_noG _ _ (fun _ => rfl),
+    occupied_noG _ _ (fun _ => rfl), occupied_noG _ _ (fun _ => rfl)]
+
+/-- a phase state without its growth field -/
+def stripG (ps : PhaseSt α) : PhaseSt α := { ps with growth := [] }
+
+theorem nucPhase_hist_congr (c : Cfg α) (sA sB : St α) (hh : sA.hist = sB.hist) (t T x0 sites : α) (pc : PhaseCfg α)
+    (an : PhaseAns α) (yp : PSlice α) :
+    nucPhase c sA t T x0 sites pc an yp = nucPhase c sB t T x0 sites pc an yp := by
+  unfold nucPhase St.n St.cur St.prev
+  rw [hh]
+
+theorem dtPhase_noG (c : Cfg α) (sA sB : St α) (hh : sA.hist = sB.hist) (pc : PhaseCfg α) (psA psB : PhaseSt α)
+    (hp : stripG psA = stripG psB) (p : Nat) (x : List α) :
+    noG (dtPhase c sA pc psA p x) = noG (dtPhase c sB pc psB p x) := by
+  have hg : psA.grid = psB.grid := by
+    have : (stripG psA).grid = (stripG psB).grid := by rw [hp]
+    exact this
+  have hd : psA.dissIdx = psB.dissIdx := by
+    have : (stripG psA).dissIdx = (stripG psB).dissIdx := by rw [hp]
+    exact this
+  unfold dtPhase noG St.cur St.prev
+  simp only [hh, hg, hd]
+
+theorem dtPhases_noG (c : Cfg α) (sA sB : St α) (x : List (List α)) (hh : sA.hist = sB.hist)
+    (hp : sA.ph.map stripG = sB.ph.map stripG) :
+    (dtPhases c sA x).map noG = (dtPhases c sB x).map noG := by
+  apply List.ext_getElem?
+  intro i
+  have hi := congrArg (fun l => l[i]?) hp
+  simp only [List.getElem?_map] at hi
+  simp only [dtPhases, List.getElem?_map, List.getElem?_mapIdx, zip3_getElem?]
+  cases hA : sA.ph[i]? with
+  | none =>
+    rw [hA] at hi
+    cases hB : sB.ph[i]? with
+    | none => simp
+    | some b => rw [hB] at hi; simp at hi
+  | some a =>
+    rw [hA] at hi
+    cases hB : sB.ph[i]? with
+    | none => rw [hB] at hi; simp at hi
+    | some b =>
+      rw [hB] at hi
+      simp only [Option.map_some, Option.some.injEq] at hi
+      cases c.phases[i]? with
+      | none => simp
+      | some pc =>
+        cases x[i]? with
+        | none => simp
+        | some xi =>
+          simp only [Option.map_some, Option.some.injEq]
+          exact dtPhase_noG c sA sB hh pc a b hi i xi
+
+/-- `_calcNucleationRate` reads the state only through the recorded rows and the phases without their growth fields -/
+theorem nucleation_congr (c : Cfg α) (sA sB : St α) (t : α) (x : List (List α)) (a : EvalAns α) (y : Slice α)
+    (hh : sA.hist = sB.hist) (hp : sA.ph.map stripG = sB.ph.map stripG) :
+    nucleation c sA t x a y = nucleation c sB t x a y := by
+  have hd := dtPhases_noG c sA sB x hh hp
+  unfold nucleation
+  simp only
+  congr 1
+  apply List.ext_getElem?
+  intro i
+  have hi := congrArg (fun l => l[i]?) hd
+  simp only [List.getElem?_map] at hi
+  simp only [List.getElem?_mapIdx, zip3_getElem?]
+  cases c.phases[i]? with
+  | none => simp
+  | some pc =>
+    cases a.ph[i]? with
+    | none => simp
+    | some an =>
+      cases hA : (dtPhases c sA x)[i]? with
+      | none =>
+        rw [hA] at hi
+        cases hB : (dtPhases c sB x)[i]? with
+        | none => simp
+        | some b => rw [hB] at hi; simp at hi
+      | some uA =>
+        rw [hA] at hi
+        cases hB : (dtPhases c sB x)[i]? with
+        | none => rw [hB] at hi; simp at hi
+        | some uB =>
+          rw [hB] at hi
+          simp only [Option.map_some, Option.some.injEq] at hi
+          simp only [Option.map_some, Option.some.injEq]
+          rw [← calcSites_noG c.sites (dtPhases c sA x) uA, ← calcSites_noG c.sites (dtPhases c sB x) uB, hd, hi]
+          exact nucPhase_hist_congr c sA sB hh _ _ _ _ _ _ _
+
+
+theorem St_ext (s t : St α) (h1 : s.ph = t.ph) (h2 : s.lookT = t.lookT) (h3 : s.lookEqA = t.lookEqA)
+    (h4 : s.lookEqB = t.lookEqB) (h5 : s.hist = t.hist) : s = t := by
+  cases s; cases t; simp_all
+
+/-- a phase state without tables and growth field: what is left is the grid and the two indices -/
+def stripT (ps : PhaseSt α) : PhaseSt α := { ps with xaT := [], xbT := [], growth := [] }
+
+theorem resetPh_strip (lA lB : List (PhaseSt α))
+    (hcfg : List.Forall₂ (fun p q : PhaseSt α => GridCfgEq p.grid q.grid) lA lB) :
+    lA.map (fun ps => stripT { ps with grid := { Grid.reset ps.grid true with recBins := [], recPsd := [], recTime := [] },
+                                         dissIdx := 0, rdfIdx := 0 }) =
+    lB.map (fun ps => stripT { ps with grid := { Grid.reset ps.grid true with recBins := [], recPsd := [], recTime := [] },
+                                         dissIdx := 0, rdfIdx := 0 }) := by
+  induction hcfg with
+  | nil => rfl
+  | cons h _ ih =>
+    simp only [List.map_cons, List.cons.injEq]
+    refine ⟨?_, ih⟩
+    simp only [stripT]
+    rw [reset_forgets_grid _ _ h]
+
+theorem resetState_strip (c : Cfg α) (sA sB : St α)
+    (hcfg : List.Forall₂ (fun p q : PhaseSt α => GridCfgEq p.grid q.grid) sA.ph sB.ph) :
+    (resetState c sA).ph.map stripT = (resetState c sB).ph.map stripT := by
+  simp only [resetState, List.map_map]
+  exact resetPh_strip sA.ph sB.ph hcfg
+
+/-- the lookup-table rebuild reads a phase only through `stripT` (it overwrites the tables) and keeps the growth field -/
+theorem createLookup_strip (T : α) (tab : List (TablePh α)) (sA sB : St α) (hp : sA.ph.map stripT = sB.ph.map stripT) :
+    (createLookup T tab sA).ph.map stripG = (createLookup T tab sB).ph.map stripG ∧
+    (createLookup T tab sA).lookT = (createLookup T tab sB).lookT ∧
+    (createLookup T tab sA).lookEqA = (createLookup T tab sB).lookEqA ∧
+    (createLookup T tab sA).lookEqB = (createLookup T tab sB).lookEqB := by
+  refine ⟨?_, rfl, rfl, rfl⟩
+  apply List.ext_getElem?
+  intro i
+  have hi := congrArg (fun l => l[i]?) hp
+  simp only [List.getElem?_map] at hi
+  simp only [createLookup, List.getElem?_map, List.getElem?_zipWith]
+  cases hA : sA.ph[i]? with
+  | none =>
+    rw [hA] at hi
+    cases hB : sB.ph[i]? with
+    | none => simp
+    | some b => rw [hB] at hi; simp at hi
+  | some a =>
+    rw [hA] at hi
+    cases hB : sB.ph[i]? with
+    | none => rw [hB] at hi; simp at hi
+    | some b =>
+      rw [hB] at hi
+      simp only [Option.map_some, Option.some.injEq] at hi
+      cases tab[i]? with
+      | none => simp
+      | some tp =>
+        simp only [Option.map_some, Option.some.injEq, stripG]
+        have hg : a.grid = b.grid := by
+          have : (stripT a).grid = (stripT b).grid := by rw [hi]
+          exact this
+        have hd : a.dissIdx = b.dissIdx := by
+          have : (stripT a).dissIdx = (stripT b).dissIdx := by rw [hi]
+          exact this
+        simp only [hg, hd]
+
+
+theorem map_strip_congr {β : Type} (f : PhaseSt α → β) (g : PhaseSt α → PhaseSt α) (hf : ∀ ps, f ps = f (g ps))
+    (lA lB : List (PhaseSt α)) (h : lA.map g = lB.map g) : lA.map f = lB.map f := by
+  have e1 : lA.map f = (lA.map g).map f := by rw [List.map_map]; exact List.map_congr_left (fun ps _ => hf ps)
+  have e2 : lB.map f = (lB.map g).map f := by rw [List.map_map]; exact List.map_congr_left (fun ps _ => hf ps)
+  rw [e1, e2, h]
+
+/-- the state `setup()` hands to the lookup rebuild, and the row it writes the equilibrium compositions into -/
+def setupS0 (c : Cfg α) (s : St α) (a : EvalAns α) : St α :=
+  { s with ph := s.ph.map (fun ps => { ps with grid := Grid.reset ps.grid true }),
+           hist := { s.cur c.nElem with comp := c.x0, temp := a.T } :: s.hist.tail }
+
+def setupRow (c : Cfg α) (s : St α) (a : EvalAns α) (s1 : St α) : Slice α :=
+  let row1 : Slice α := { s.cur c.nElem with comp := c.x0, temp := a.T }
+  { row1 with ph := row1.ph.mapIdx (fun p yp => { yp with xEqA := s1.lookEqA.getD p [], xEqB := s1.lookEqB.getD p [] }) }
+
+/-- **`reset()` forgets the past (binary models)**: two models whose population balance models are configured alike, phase by
+phase, are after `reset()` and `setup()` in the SAME state — for every configuration and every backend answer, whatever either
+did before (different histories, re-meshed grids, stale tables, growth fields and lookup temperatures) -/
+theorem reset_forgets (c : Cfg α) (sA sB : St α) (a : EvalAns α) (eq : List (Option (List α × List α)))
+    (hb : c.binary = true)
+    (hcfg : List.Forall₂ (fun p q : PhaseSt α => GridCfgEq p.grid q.grid) sA.ph sB.ph) :
+    setupState c (resetState c sA) a eq = setupState c (resetState c sB) a eq := by
+  have hR := resetState_strip c sA sB hcfg
+  have hH : (resetState c sA).hist = (resetState c sB).hist := rfl
+  -- the states handed to the lookup rebuild agree up to tables and growth
+  have h0 : ((resetState c sA).ph.map (fun ps => { ps with grid := Grid.reset ps.grid true })).map stripT =
+            ((resetState c sB).ph.map (fun ps => { ps with grid := Grid.reset ps.grid true })).map stripT := by
+    have e : ∀ l : List (PhaseSt α), (l.map (fun ps => { ps with grid := Grid.reset ps.grid true })).map stripT =
+        (l.map stripT).map (fun ps => { ps with grid := Grid.reset ps.grid true }) := by
+      intro l; simp only [List.map_map]; rfl
+    rw [e, e, hR]
+  rw [setupState_eq, setupState_eq]
+  simp only
+  -- `setupPre`, binary branch
+  have hpre1 : ∀ s : St α, (setupPre c s a eq).1 = createLookup a.T a.table (setupS0 c s a) := by
+    intro s; unfold setupPre setupS0; simp only [hb, if_true]
+  have hpre2 : ∀ s : St α, (setupPre c s a eq).2 = setupRow c s a (createLookup a.T a.table (setupS0 c s a)) := by
+    intro s; unfold setupPre setupS0 setupRow; simp only [hb, if_true]
+  have h0' : (setupS0 c (resetState c sA) a).ph.map stripT = (setupS0 c (resetState c sB) a).ph.map stripT := h0
+  obtain ⟨hL1, hL2, hL3, hL4⟩ := createLookup_strip a.T a.table _ _ h0'
+  have hcurEq : (resetState c sA).cur c.nElem = (resetState c sB).cur c.nElem := rfl
+  have hrow : (setupPre c (resetState c sA) a eq).2 = (setupPre c (resetState c sB) a eq).2 := by
+    rw [hpre2, hpre2]; unfold setupRow; rw [hL3, hL4, hcurEq]
+  have hph : (setupPre c (resetState c sA) a eq).1.ph.map stripG = (setupPre c (resetState c sB) a eq).1.ph.map stripG := by
+    rw [hpre1, hpre1]; exact hL1
+  have hlT : (setupPre c (resetState c sA) a eq).1.lookT = (setupPre c (resetState c sB) a eq).1.lookT := by
+    rw [hpre1, hpre1]; exact hL2
+  have hlA : (setupPre c (resetState c sA) a eq).1.lookEqA = (setupPre c (resetState c sB) a eq).1.lookEqA := by
+    rw [hpre1, hpre1]; exact hL3
+  have hlB : (setupPre c (resetState c sA) a eq).1.lookEqB = (setupPre c (resetState c sB) a eq).1.lookEqB := by
+    rw [hpre1, hpre1]; exact hL4
+  generalize setupPre c (resetState c sA) a eq = pA at hrow hph hlT hlA hlB ⊢
+  generalize setupPre c (resetState c sB) a eq = pB at hrow hph hlT hlA hlB ⊢
+  -- the nucleation terms agree
+  have hpsd : pA.1.ph.map (fun ps => ps.grid.psd) = pB.1.ph.map (fun ps => ps.grid.psd) :=
+    map_strip_congr _ stripG (fun _ => rfl) _ _ hph
+  have hy : nucleation c { pA.1 with hist := pA.2 :: (resetState c sA).hist.tail } ((resetState c sA).cur c.nElem).time
+        (pA.1.ph.map (fun ps => ps.grid.psd)) a { (resetState c sA).cur c.nElem with comp := c.x0, temp := a.T } =
+      nucleation c { pB.1 with hist := pB.2 :: (resetState c sB).hist.tail } ((resetState c sB).cur c.nElem).time
+        (pB.1.ph.map (fun ps => ps.grid.psd)) a { (resetState c sB).cur c.nElem with comp := c.x0, temp := a.T } := by
+    rw [hpsd, hcurEq]
+    exact nucleation_congr c _ _ _ _ a _ (by show pA.2 :: _ = pB.2 :: _; rw [hrow, hH]) hph
+  -- and the states handed to the growth-rate call are equal
+  have hs2 : ({ pA.1 with
+                  ph := pA.1.ph.map (fun ps => { ps with growth := zerosL (ps.grid.bins + 1) }),
+                  hist := pA.2 :: (resetState c sA).hist.tail } : St α) =
+             { pB.1 with
+                  ph := pB.1.ph.map (fun ps => { ps with growth := zerosL (ps.grid.bins + 1) }),
+                  hist := pB.2 :: (resetState c sB).hist.tail } := by
+    apply St_ext
+    · exact map_strip_congr _ stripG (fun _ => rfl) _ _ hph
+    · exact hlT
+    · exact hlA
+    · exact hlB
+    · show pA.2 :: _ = pB.2 :: _; rw [hrow, hH]
+  rw [hy, hs2, hH]
+
+/-- … hence every later run is the same too (same answers, same end time, same iterators) -/
+theorem reset_forgets_runs (c : Cfg α) (sA sB : St α) (a : EvalAns α) (eq : List (Option (List α × List α)))
+    (tf dtminS dtmaxS : α) (steps : List (StepAns α)) (hb : c.binary = true)
+    (hcfg : List.Forall₂ (fun p q : PhaseSt α => GridCfgEq p.grid q.grid) sA.ph sB.ph) :
+    runFromSetup c (resetState c sA) a eq tf dtminS dtmaxS steps = runFromSetup c (resetState c sB) a eq tf dtminS dtmaxS steps := by
+  unfold runFromSetup
+  rw [reset_forgets c sA sB a eq hb hcfg]
+
+/-- a model that was reset behaves like a freshly constructed one with the same population-balance parameters -/
+theorem reset_like_fresh (c : Cfg α) (s : St α) (a : EvalAns α) (eq : List (Option (List α × List α)))
+    (tf dtminS dtmaxS : α) (steps : List (StepAns α)) (hb : c.binary = true) (grids : List (Grid.State α))
+    (hcfg : List.Forall₂ (fun (p : PhaseSt α) (g : Grid.State α) => GridCfgEq p.grid g) s.ph grids) :
+    runFromSetup c (resetState c s) a eq tf dtminS dtmaxS steps =
+      runFromSetup c (resetState c (freshState c grids)) a eq tf dtminS dtmaxS steps := by
+  apply reset_forgets_runs c s (freshState c grids) a eq tf dtminS dtmaxS steps hb
+  simp only [freshState]
+  rw [List.forall₂_map_right_iff]
+  exact hcfg
+
+
 /-! ### non-vacuity
 
 `GridGood` is satisfiable (the grid a `PopulationBalanceModel` is constructed with).  The hypothesis `… = some o` of the step
@@ -2427,6 +2736,26 @@ theorem example_runs (a0 : EvalAns ℚ) (eq : List (Option (List ℚ × List ℚ
 example : AnsShaped cfg1 1 { T := 700, D := 1, table := [{ eqOK := true, eqA := 0, eqB := 1, xa := [], xb := [] }],
                              ph := [{ volDG := 0, thermoF := 1, d0 := 1, d1 := 1, tauNonIso := 0, arClass := [], kin := [],
                                       eff := [], multi := none }] } := ⟨rfl, fun _ => rfl⟩
+
+/-! `reset_forgets`: its hypothesis is met by a grid with a genuinely different past (extended by three classes), and the
+variant of `reset()` that was repaired (9231d6f: population balance models replaced by default ones) does NOT meet it -/
+
+theorem add_cfgEq (g g' : Grid.State ℚ) (k : Nat) (h : Grid.add g k = some g') : GridCfgEq g' g := by
+  unfold Grid.add at h
+  split at h
+  · simp only [Option.some.injEq] at h; subst h; exact ⟨rfl, rfl, rfl, rfl, rfl, rfl, rfl, rfl, rfl, rfl, rfl⟩
+  · simp at h
+
+example : ∃ g', Grid.add g0 3 = some g' ∧ g'.bins = 5 ∧ GridCfgEq g' g0 := by
+  refine ⟨_, rfl, by decide, add_cfgEq g0 _ 3 rfl⟩
+
+/-- the default population balance model (150 classes on [1e-10, 1e-9], limits 100/200; lengths in units of 1e-10 m) -/
+def gDefault : Grid.State ℚ := Grid.init (1 : ℚ) 10 150 100 200
+
+theorem unrepaired_reset_changes_configuration : ¬ GridCfgEq gDefault g0 := by
+  intro h; exact absurd h.2.2.1 (by decide)
+
+theorem unrepaired_reset_changes_grid : (Grid.reset gDefault true).bins ≠ (Grid.reset g0 true).bins := by decide
 
 end Example
 
